@@ -14,8 +14,11 @@ def sh(cmd, cwd=None, timeout=7200):
 
 
 
+HELD = [False]
+
+
 def repo_lock():
-    """/repo is patched in place: one user at a time (mkdir is atomic)"""
+    """/repo is patched in place: one user at a time (mkdir is atomic); taken per change so that others can get in between"""
     import atexit
     while True:
         try:
@@ -23,7 +26,14 @@ def repo_lock():
             break
         except FileExistsError:
             time.sleep(5)
-    atexit.register(lambda: os.path.isdir("/tmp/repo.lock") and os.rmdir("/tmp/repo.lock"))
+    HELD[0] = True
+    atexit.register(repo_unlock)
+
+
+def repo_unlock():
+    if HELD[0] and os.path.isdir("/tmp/repo.lock"):
+        os.rmdir("/tmp/repo.lock")
+    HELD[0] = False
 
 repo_lock()
 ids = sys.argv[1:] or sorted(os.path.basename(os.path.dirname(f)) for f in glob.glob(f"{V}/seeded/*/meta.json"))
@@ -32,6 +42,9 @@ assert st == "", "/repo not clean: " + st
 head = sh("git -C /repo rev-parse --short HEAD")[1].strip()
 summary = []
 for d in ids:
+    repo_unlock()
+    time.sleep(0.5)
+    repo_lock()
     dd = f"{V}/seeded/{d}"
     meta = json.load(open(f"{dd}/meta.json"))
     pid = meta["property"]
